@@ -75,3 +75,295 @@ Print Assumptions C03_uspfs_returns.
 (* outside the region optimiser and evaluator differ at a single node; non-vacuity example *)
 Example C03_incoherent_refuted := uincoherent_step.
 Example C03_example := uspfs_example.
+
+(* ---- the tie to the source by translation: Gen/UspfsGen.v (regenerated from compute/unordered_super_reconciliation.py on every run) against Model/Uspfs.v ---- *)
+
+From SR Require Import Gen.UspfsGen Proofs.UspfsGenStage1 Proofs.UspfsGenProofs Proofs.UspfsGenLink. Import UspfsGenMain UspfsLink UspfsGenStage1.Stage1.
+
+Theorem C03_gen_usreconcile_extended_uspfs_model :
+  forall (lca node_id olca : Type) (nid_eqb : node_id -> node_id -> bool),
+       (forall a b : node_id, reflect (a = b) (nid_eqb a b)) ->
+       forall (lcaobj : lca) (S : stree) (c : costs) (leafsp : node_id -> path)
+         (syn : node_id -> list fam) (O : UspfsGenCommon.Common.EV.TreeNode node_id)
+         (missing : node_id -> path) (missing_syn : node_id -> list fam)
+         (ord_infos : list GM.TX.CM.ca -> list GM.TX.CM.ca)
+         (fam_order sort_synteny_fn : list fam -> list fam)
+         (oeqb : UspfsGenCommon.Embed.UG.spout_state -> UspfsGenCommon.Embed.UG.spout_state -> bool)
+         (olca_of : UspfsGenCommon.Common.EV.TreeNode node_id -> olca)
+         (olca_call : olca -> list node_id -> node_id)
+         (syn_items : (node_id -> list fam) -> list (node_id * list fam))
+         (node_order : list node_id -> list node_id),
+       W nid_eqb S c leafsp syn O missing missing_syn ord_infos fam_order sort_synteny_fn oeqb
+         olca_of olca_call syn_items node_order ->
+       match uspfs S c RALL true (EvalGenProofs.otree_of leafsp syn O) with
+       | Some e =>
+           exists outs : list UspfsGenCommon.Embed.UG.spout_state,
+             UspfsGenCommon.Embed.UG.gen_usreconcile_extended_uspfs N.eqb path_eqb nid_eqb
+               (fun _ : lca => anc) (fun _ : lca => lcp) (fun _ : lca => dist)
+               (fun _ : lca => UspfsGenCommon.Embed.sembed3 S []) olca_of olca_call syn_items
+               fam_order node_order (fun _ : lca => sanc) (fun _ : lca => comparable) oeqb missing
+               missing_syn ord_infos sort_synteny_fn
+               {|
+                 DC.T.EvalGen.sin_object_tree := O;
+                 DC.T.EvalGen.sin_species_lca := lcaobj;
+                 DC.T.EvalGen.sin_leaf_object_species := leafsp;
+                 DC.T.EvalGen.sin_costs := EvalGenProofs.stsocc c;
+                 DC.T.EvalGen.sin_leaf_syntenies := syn
+               |} (EntryGenProofs.prc RALL) = UspfsGenCommon.Embed.UG.Ok outs /\
+             Permutation.Permutation (map (lt_out nid_eqb O missing missing_syn) outs) (tags e) /\
+             (outs = [] <-> tags e = [])
+       | None =>
+           UspfsGenCommon.Embed.UG.gen_usreconcile_extended_uspfs N.eqb path_eqb nid_eqb
+             (fun _ : lca => anc) (fun _ : lca => lcp) (fun _ : lca => dist)
+             (fun _ : lca => UspfsGenCommon.Embed.sembed3 S []) olca_of olca_call syn_items
+             fam_order node_order (fun _ : lca => sanc) (fun _ : lca => comparable) oeqb missing
+             missing_syn ord_infos sort_synteny_fn
+             {|
+               DC.T.EvalGen.sin_object_tree := O;
+               DC.T.EvalGen.sin_species_lca := lcaobj;
+               DC.T.EvalGen.sin_leaf_object_species := leafsp;
+               DC.T.EvalGen.sin_costs := EvalGenProofs.stsocc c;
+               DC.T.EvalGen.sin_leaf_syntenies := syn
+             |} (EntryGenProofs.prc RALL) =
+           UspfsGenCommon.Embed.UG.Err UspfsGenCommon.Embed.UG.AssertionError
+       end.
+Proof. exact @gen_usreconcile_extended_uspfs_model. Qed.
+Print Assumptions C03_gen_usreconcile_extended_uspfs_model.
+
+Theorem C03_gen_usreconcile_base_uspfs_model :
+  forall (lca node_id olca : Type) (nid_eqb : node_id -> node_id -> bool),
+       (forall a b : node_id, reflect (a = b) (nid_eqb a b)) ->
+       forall (lcaobj : lca) (S : stree) (c : costs) (leafsp : node_id -> path)
+         (syn : node_id -> list fam) (O : UspfsGenCommon.Common.EV.TreeNode node_id)
+         (missing : node_id -> path) (missing_syn : node_id -> list fam)
+         (ord_infos : list GM.TX.CM.ca -> list GM.TX.CM.ca)
+         (fam_order sort_synteny_fn : list fam -> list fam)
+         (oeqb : UspfsGenCommon.Embed.UG.spout_state -> UspfsGenCommon.Embed.UG.spout_state -> bool)
+         (olca_of : UspfsGenCommon.Common.EV.TreeNode node_id -> olca)
+         (olca_call : olca -> list node_id -> node_id)
+         (syn_items : (node_id -> list fam) -> list (node_id * list fam))
+         (node_order : list node_id -> list node_id),
+       W nid_eqb S c leafsp syn O missing missing_syn ord_infos fam_order sort_synteny_fn oeqb
+         olca_of olca_call syn_items node_order ->
+       match uspfs S c RALL false (EvalGenProofs.otree_of leafsp syn O) with
+       | Some e =>
+           exists outs : list UspfsGenCommon.Embed.UG.spout_state,
+             UspfsGenCommon.Embed.UG.gen_usreconcile_base_uspfs N.eqb path_eqb nid_eqb
+               (fun _ : lca => anc) (fun _ : lca => lcp) (fun _ : lca => dist)
+               (fun _ : lca => UspfsGenCommon.Embed.sembed3 S []) olca_of olca_call syn_items
+               fam_order node_order (fun _ : lca => sanc) (fun _ : lca => comparable) oeqb missing
+               missing_syn ord_infos sort_synteny_fn
+               {|
+                 DC.T.EvalGen.sin_object_tree := O;
+                 DC.T.EvalGen.sin_species_lca := lcaobj;
+                 DC.T.EvalGen.sin_leaf_object_species := leafsp;
+                 DC.T.EvalGen.sin_costs := EvalGenProofs.stsocc c;
+                 DC.T.EvalGen.sin_leaf_syntenies := syn
+               |} (EntryGenProofs.prc RALL) = UspfsGenCommon.Embed.UG.Ok outs /\
+             Permutation.Permutation (map (lt_out nid_eqb O missing missing_syn) outs) (tags e) /\
+             (outs = [] <-> tags e = [])
+       | None =>
+           UspfsGenCommon.Embed.UG.gen_usreconcile_base_uspfs N.eqb path_eqb nid_eqb
+             (fun _ : lca => anc) (fun _ : lca => lcp) (fun _ : lca => dist)
+             (fun _ : lca => UspfsGenCommon.Embed.sembed3 S []) olca_of olca_call syn_items
+             fam_order node_order (fun _ : lca => sanc) (fun _ : lca => comparable) oeqb missing
+             missing_syn ord_infos sort_synteny_fn
+             {|
+               DC.T.EvalGen.sin_object_tree := O;
+               DC.T.EvalGen.sin_species_lca := lcaobj;
+               DC.T.EvalGen.sin_leaf_object_species := leafsp;
+               DC.T.EvalGen.sin_costs := EvalGenProofs.stsocc c;
+               DC.T.EvalGen.sin_leaf_syntenies := syn
+             |} (EntryGenProofs.prc RALL) =
+           UspfsGenCommon.Embed.UG.Err UspfsGenCommon.Embed.UG.AssertionError
+       end.
+Proof. exact @gen_usreconcile_base_uspfs_model. Qed.
+Print Assumptions C03_gen_usreconcile_base_uspfs_model.
+
+Theorem C03_gen_compute_uspfs_entry_model :
+  forall (lca node_id : Type) (nid_eqb : node_id -> node_id -> bool),
+       (forall a b : node_id, reflect (a = b) (nid_eqb a b)) ->
+       forall (lcaobj : lca) (rp : ret) (S : stree) (c : costs)
+         (rs : UspfsGenCommon.Embed.UG.STree) (nid : node_id)
+         (L R : UspfsGenCommon.Common.EV.TreeNode node_id)
+         (tb : UspfsGenCommon.Common.TG.table_state UspfsGenCommon.Common.UG.key GM.TX.CM.ca)
+         (lsets : list (node_id * list fam)) (lr ll lrr : list fam) (ta tb_ : utt),
+       UspfsGenCommon.Embed.rs_ok S rs ->
+       UspfsGenCommon.Common.inv3 rp tb ->
+       UspfsGenCommon.Embed.UG.dict_get nid_eqb lsets nid = Some lr ->
+       UspfsGenCommon.Embed.UG.dict_get nid_eqb lsets (UspfsGenCommon.Common.EV.TreeNode_id L) =
+       Some ll ->
+       UspfsGenCommon.Embed.UG.dict_get nid_eqb lsets (UspfsGenCommon.Common.EV.TreeNode_id R) =
+       Some lrr ->
+       UspfsGenCommon.Common.gsem3 nid_eqb tb nid (UspfsGenCommon.Embed.UG.STree_id rs) false =
+       default_entry MIN ->
+       UspfsGenCommon.Common.gsem3 nid_eqb tb nid (UspfsGenCommon.Embed.UG.STree_id rs) true =
+       default_entry MIN ->
+       (forall k : path * bool,
+        In (fst k) (snodes S) ->
+        UspfsGenCommon.Common.sub_of nid_eqb tb (UspfsGenCommon.Common.EV.TreeNode_id L) k =
+        val (uread ta k)) ->
+       (forall k : path * bool,
+        In (fst k) (snodes S) ->
+        UspfsGenCommon.Common.sub_of nid_eqb tb (UspfsGenCommon.Common.EV.TreeNode_id R) k =
+        val (uread tb_ k)) ->
+       exists
+         tb' : UspfsGenCommon.Embed.UG.TableGen.table_state UspfsGenCommon.Embed.UG.key GM.TX.CM.ca,
+         UspfsGenCommon.Embed.UG.gen_compute_uspfs_entry N.eqb path_eqb nid_eqb
+           (fun _ : lca => anc) (fun _ : lca => dist)
+           (fun _ : lca => UspfsGenCommon.Embed.sembed3 S []) lcaobj rs
+           (UspfsGenCommon.Common.EV.TreeNode_node nid L R) lsets tb (EvalGenProofs.stsocc c) =
+         UspfsGenCommon.Embed.UG.Ok (tb', tt) /\
+         UspfsGenCommon.Common.inv3 rp tb' /\
+         (forall kind : bool,
+          let cellM :=
+            ucell S c rp ta tb_ (UspfsGenCommon.Embed.UG.gset_subset N.eqb lr ll)
+              (UspfsGenCommon.Embed.UG.gset_subset N.eqb lr lrr)
+              (UspfsGenCommon.Embed.UG.STree_id rs) kind in
+          val
+            (UspfsGenCommon.Common.gsem3 nid_eqb tb' nid (UspfsGenCommon.Embed.UG.STree_id rs) kind) =
+          val cellM /\
+          (tags
+             (UspfsGenCommon.Common.gsem3 nid_eqb tb' nid (UspfsGenCommon.Embed.UG.STree_id rs)
+                kind) = [] <-> tags cellM = []) /\
+          (rp = RALL ->
+           exists l : list utag,
+             tags
+               (UspfsGenCommon.Common.gsem3 nid_eqb tb' nid (UspfsGenCommon.Embed.UG.STree_id rs)
+                  kind) = map UspfsGenCommon.Common.tag_ca l /\
+             Permutation.Permutation l (tags cellM))) /\
+         (forall (n : node_id) (x : path) (k : bool),
+          (n, x) <> (nid, UspfsGenCommon.Embed.UG.STree_id rs) ->
+          UspfsGenCommon.Common.gsem3 nid_eqb tb' n x k =
+          UspfsGenCommon.Common.gsem3 nid_eqb tb n x k).
+Proof. exact @gen_compute_uspfs_entry_model. Qed.
+Print Assumptions C03_gen_compute_uspfs_entry_model.
+
+Theorem C03_gen_compute_uspfs_table_extended :
+  forall (lca node_id : Type) (nid_eqb : node_id -> node_id -> bool),
+       (forall a b : node_id, reflect (a = b) (nid_eqb a b)) ->
+       forall (lcaobj : lca) (S : stree) (c : costs) (leafsp : node_id -> path)
+         (syn : node_id -> list fam) (O : UspfsGenCommon.Common.EV.TreeNode node_id) 
+         (rp : ret) (lsets : list (node_id * list fam)),
+       nn (c_hgt c) ->
+       NoDup
+         (map UspfsGenCommon.Common.EV.TreeNode_id (UspfsGenCommon.Embed.UG.TreeNode_postorder O)) ->
+       lsets_ok nid_eqb leafsp syn O lsets ->
+       exists
+         tb : UspfsGenCommon.Embed.UG.TableGen.table_state UspfsGenCommon.Embed.UG.key GM.TX.CM.ca,
+         UspfsGenCommon.Embed.UG.gen_compute_uspfs_table N.eqb path_eqb nid_eqb
+           (fun _ : lca => anc) (fun _ : lca => dist)
+           (fun _ : lca => UspfsGenCommon.Embed.sembed3 S [])
+           {|
+             DC.T.EvalGen.sin_object_tree := O;
+             DC.T.EvalGen.sin_species_lca := lcaobj;
+             DC.T.EvalGen.sin_leaf_object_species := leafsp;
+             DC.T.EvalGen.sin_costs := EvalGenProofs.stsocc c;
+             DC.T.EvalGen.sin_leaf_syntenies := syn
+           |} lsets
+           (fun (species : UspfsGenCommon.Embed.UG.STree)
+              (_ : UspfsGenCommon.Common.EV.TreeNode node_id) =>
+            UspfsGenCommon.Embed.UG.STree_postorder species) (EntryGenProofs.prc rp) =
+         UspfsGenCommon.Embed.UG.Ok tb /\
+         UspfsGenCommon.Common.inv3 rp tb /\ cells_model nid_eqb S c leafsp syn O true rp tb.
+Proof. exact @gen_compute_uspfs_table_extended. Qed.
+Print Assumptions C03_gen_compute_uspfs_table_extended.
+
+Theorem C03_gen_compute_uspfs_table_base :
+  forall (lca node_id : Type) (nid_eqb : node_id -> node_id -> bool),
+       (forall a b : node_id, reflect (a = b) (nid_eqb a b)) ->
+       forall (lcaobj : lca) (S : stree) (c : costs) (leafsp : node_id -> path)
+         (syn : node_id -> list fam) (O : UspfsGenCommon.Common.EV.TreeNode node_id) 
+         (rp : ret) (lsets : list (node_id * list fam)) (d : list (node_id * path)),
+       nn (c_hgt c) ->
+       NoDup
+         (map UspfsGenCommon.Common.EV.TreeNode_id (UspfsGenCommon.Embed.UG.TreeNode_postorder O)) ->
+       UspfsGenMain.TF.leaves_valid S leafsp O ->
+       lsets_ok nid_eqb leafsp syn O lsets ->
+       (forall u : UspfsGenCommon.Embed.UG.EvalGen.TreeNode node_id,
+        In u (UspfsGenCommon.Embed.UG.TreeNode_postorder O) ->
+        UspfsGenCommon.Embed.UG.dict_get nid_eqb d (UspfsGenCommon.Common.EV.TreeNode_id u) =
+        Some (root (lca_rec (EvalGenProofs.otree_of leafsp syn u)))) ->
+       exists
+         tb : UspfsGenCommon.Embed.UG.TableGen.table_state UspfsGenCommon.Embed.UG.key GM.TX.CM.ca,
+         UspfsGenCommon.Embed.UG.gen_compute_uspfs_table N.eqb path_eqb nid_eqb
+           (fun _ : lca => anc) (fun _ : lca => dist)
+           (fun _ : lca => UspfsGenCommon.Embed.sembed3 S [])
+           {|
+             DC.T.EvalGen.sin_object_tree := O;
+             DC.T.EvalGen.sin_species_lca := lcaobj;
+             DC.T.EvalGen.sin_leaf_object_species := leafsp;
+             DC.T.EvalGen.sin_costs := EvalGenProofs.stsocc c;
+             DC.T.EvalGen.sin_leaf_syntenies := syn
+           |} lsets
+           (fun (_ : UspfsGenCommon.Embed.UG.STree)
+              (obj : UspfsGenCommon.Embed.UG.EvalGen.TreeNode node_id) =>
+            UspfsGenCommon.Embed.UG.base_species path_eqb nid_eqb
+              (UspfsGenCommon.Embed.sembed3 S []) d obj) (EntryGenProofs.prc rp) =
+         UspfsGenCommon.Embed.UG.Ok tb /\
+         UspfsGenCommon.Common.inv3 rp tb /\ cells_model nid_eqb S c leafsp syn O false rp tb.
+Proof. exact @gen_compute_uspfs_table_base. Qed.
+Print Assumptions C03_gen_compute_uspfs_table_base.
+
+Theorem C03_gen_compute_gain_sets_spec :
+  forall (lca node_id olca : Type) (nid_eqb : node_id -> node_id -> bool),
+       (forall a b : node_id, reflect (a = b) (nid_eqb a b)) ->
+       forall (olca_of : EV.TreeNode node_id -> olca) (olca_call : olca -> list node_id -> node_id)
+         (syn_items : (node_id -> list fam) -> list (node_id * list fam))
+         (node_order : list node_id -> list node_id) (O : EV.TreeNode node_id) 
+         (lcaobj : lca) (leafsp : node_id -> path) (costs : EV.CostValues)
+         (syn : node_id -> list fam),
+       ids_distinct O ->
+       olca_ok olca_of olca_call O ->
+       order_ok node_order ->
+       items_ok syn_items O syn ->
+       exists g : list (node_id * list N),
+         UG.gen_compute_gain_sets N.eqb nid_eqb olca_of olca_call syn_items node_order
+           {|
+             DC.T.EvalGen.sin_object_tree := O;
+             DC.T.EvalGen.sin_species_lca := lcaobj;
+             DC.T.EvalGen.sin_leaf_object_species := leafsp;
+             DC.T.EvalGen.sin_costs := costs;
+             DC.T.EvalGen.sin_leaf_syntenies := syn
+           |} = UG.Ok g /\
+         (forall (p : path) (u : EV.TreeNode node_id),
+          nsub O p = Some u ->
+          exists (l : list N) (ua : utree),
+            UG.dict_get nid_eqb g (EV.TreeNode_id u) = Some l /\
+            usub (annotate_top (EvalGenProofs.otree_of leafsp syn O)) p = Some ua /\
+            NoDup l /\
+            (forall f : N, In f l <-> In f (u_gain ua)) /\ Permutation.Permutation l (u_gain ua)).
+Proof. exact @gen_compute_gain_sets_spec. Qed.
+Print Assumptions C03_gen_compute_gain_sets_spec.
+
+Theorem C03_gen_compute_lca_sets_spec :
+  forall (lca node_id : Type) (nid_eqb : node_id -> node_id -> bool),
+       (forall a b : node_id, reflect (a = b) (nid_eqb a b)) ->
+       forall (O : EV.TreeNode node_id) (lcaobj : lca) (leafsp : node_id -> path)
+         (costs : EV.CostValues) (syn : node_id -> list fam) (g : list (node_id * list fam)),
+       ids_distinct O ->
+       (forall (p : path) (u : EV.TreeNode node_id),
+        nsub O p = Some u ->
+        exists (l : list fam) (ua : utree),
+          UG.dict_get nid_eqb g (EV.TreeNode_id u) = Some l /\
+          usub (annotate_top (EvalGenProofs.otree_of leafsp syn O)) p = Some ua /\
+          (forall f : fam, In f l <-> In f (u_gain ua))) ->
+       exists r : list (node_id * list N),
+         UG.gen_compute_lca_sets N.eqb nid_eqb
+           {|
+             DC.T.EvalGen.sin_object_tree := O;
+             DC.T.EvalGen.sin_species_lca := lcaobj;
+             DC.T.EvalGen.sin_leaf_object_species := leafsp;
+             DC.T.EvalGen.sin_costs := costs;
+             DC.T.EvalGen.sin_leaf_syntenies := syn
+           |} g = UG.Ok r /\
+         (forall (p : path) (u : EV.TreeNode node_id),
+          nsub O p = Some u ->
+          exists (l : list N) (ua : utree),
+            UG.dict_get nid_eqb r (EV.TreeNode_id u) = Some l /\
+            usub (annotate_top (EvalGenProofs.otree_of leafsp syn O)) p = Some ua /\
+            NoDup l /\
+            (forall f : N, In f l <-> In f (u_lca ua)) /\ Permutation.Permutation l (u_lca ua)).
+Proof. exact @gen_compute_lca_sets_spec. Qed.
+Print Assumptions C03_gen_compute_lca_sets_spec.
+
